@@ -177,10 +177,12 @@ def property_checks(inp):
     # built from coefficients is the combination of the rotated modes
     for rot_ in (0.3, -0.9):
         Zr_ = zk.zernikeArray(J, N, rot=rot_)
-        single = numpy.array([zk.zernike_noll(j_ + 1, N, rot_) for j_ in range(J)])
+        single = numpy.array([zk.zernike_nm(*zk.zernIndex(j_ + 1), N, rot_) for j_ in range(J)])
         A(("zernikeArray(count, rot) = the rotated single modes (rot %g)" % rot_, float(numpy.abs(Zr_ - single).max()), 0.0))
         Zl_ = zk.zernikeArray(lst, N, rot=rot_)
-        A(("zernikeArray(list, rot) = the rotated single modes (rot %g)" % rot_, float(numpy.abs(Zl_ - numpy.array([zk.zernike_noll(j_, N, rot_) for j_ in lst])).max()), 0.0))
+        A(("zernikeArray(list, rot) = the rotated single modes (rot %g)" % rot_, float(numpy.abs(Zl_ - numpy.array([zk.zernike_nm(*zk.zernIndex(j_), N, rot_) for j_ in lst])).max()), 0.0))
+        A(("zernike_noll(j, N, rot) = zernike_nm(n, m, N, rot), rotation given positionally or by keyword (rot %g)" % rot_,
+           float(max(numpy.abs(zk.zernike_noll(j_, N, rot_) - zk.zernike_nm(*zk.zernIndex(j_), N, rot_)).max() + numpy.abs(zk.zernike_noll(j_, N, rot=rot_) - zk.zernike_nm(*zk.zernIndex(j_), N, rot=rot_)).max() for j_ in lst)), 0.0))
     co = npr.normal(size=J)
     A(("phase from coefficients is the linear combination", float(numpy.abs(zk.phaseFromZernikes(list(co), N) - numpy.tensordot(co, Zs, axes=1)).max()), 1e-12))
     # gamma matrices vs actual gradients (analytic modes on a fine grid, central differences in the interior)
